@@ -1632,7 +1632,8 @@ class IndexHierarchy(IndexBase):
                     labels.extend(target.index)
                     if target.targets is not None:
                         targets.extend(target.targets)
-                index = levels.index.__class__(labels)
+                # NOTE: the new outer index takes the class of the level below, not of the level being dropped
+                index = levels.targets[0].index.__class__(labels) #type: ignore
                 if not targets:
                     return index.rename(name)
                 levels = levels.__class__(
